@@ -156,10 +156,41 @@ class WalkOptions:
                                            '_run_model_for_batch'})
 
 
-def _is_single_return(fn: FuncInfo) -> Optional[ast.expr]:
+def _is_single_return(fn: FuncInfo, chains: bool = True) -> Optional[ast.expr]:
     b = fn.body
     if len(b) == 1 and isinstance(b[0], ast.Return) and b[0].value is not None:
         return b[0].value
+    # `for x in XS: if T: return False` + `return True` is `all(not T for x in XS)` (and the mirror image `any(T for x in XS)`)
+    if len(b) == 2 and isinstance(b[0], ast.For) and not b[0].orelse and len(b[0].body) == 1 and isinstance(b[0].body[0], ast.If) \
+            and not b[0].body[0].orelse and len(b[0].body[0].body) == 1 and isinstance(b[0].body[0].body[0], ast.Return) \
+            and isinstance(b[1], ast.Return) and isinstance(b[0].target, (ast.Name, ast.Tuple)):
+        k_in, k_out = b[0].body[0].body[0].value, b[1].value
+        if isinstance(k_in, ast.Constant) and isinstance(k_out, ast.Constant) and isinstance(k_in.value, bool) \
+                and isinstance(k_out.value, bool) and k_in.value != k_out.value:
+            cached = getattr(fn, '_quantifier', None)
+            if cached is None:
+                t = b[0].body[0].test
+                elt = t if k_in.value else (t.operand if isinstance(t, ast.UnaryOp) and isinstance(t.op, ast.Not) else
+                                            ast.UnaryOp(op=ast.Not(), operand=t))
+                g = ast.GeneratorExp(elt=elt, generators=[ast.comprehension(target=b[0].target, iter=b[0].iter, ifs=[], is_async=0)])
+                cached = ast.Call(func=ast.Name(id='any' if k_in.value else 'all', ctx=ast.Load()), args=[g], keywords=[])
+                ast.copy_location(cached, b[0])
+                ast.fix_missing_locations(cached)
+                fn._quantifier = cached
+            return cached
+    # guard clauses in front of the answer - `if C: return X` ... `return Y` - are the conditional expression `X if C else Y`
+    if chains and len(b) >= 2 and isinstance(b[-1], ast.Return) and b[-1].value is not None and all(
+            isinstance(g, ast.If) and not g.orelse and len(g.body) == 1 and isinstance(g.body[0], ast.Return)
+            and g.body[0].value is not None for g in b[:-1]):
+        cached = getattr(fn, '_guard_chain', None)
+        if cached is None:
+            cached = b[-1].value
+            for g in reversed(b[:-1]):
+                cached = ast.IfExp(test=g.test, body=g.body[0].value, orelse=cached)
+                ast.copy_location(cached, g)
+            ast.fix_missing_locations(cached)
+            fn._guard_chain = cached
+        return cached
     return None
 
 
@@ -1007,7 +1038,7 @@ class _Ctx:
         if not wanted or callee.qualname in self.inline_stack or callee.qualname == self.fn.qualname or \
                 callee.name in self.opts.no_full_inline:
             return None
-        if _is_single_return(callee) is not None or _straight_line(callee) is not None:
+        if _is_single_return(callee, chains=self.w.is_new_function(callee)) is not None or _straight_line(callee) is not None:
             return None         # evaluated in place like an expression
         return callee, tgt
 
@@ -1647,6 +1678,10 @@ class _Ctx:
             s._gen_target = g
         except Exception:
             pass
+        for b in new_body:
+            for n in ast.walk(b):
+                if isinstance(n, (ast.For, ast.While)):
+                    n._exp_site = s.lineno         # the same generator expanded at two call sites gives two different loops
         return new_body
 
     @staticmethod
@@ -1806,6 +1841,22 @@ class _Ctx:
             if k == self.opts.unroll:
                 break
             nxt = []
+            if k == 0 and self.opts.prune and nxt_input:
+                # a sequence the path has found empty (`x = f() if results else None; for r in results: x(r)`) is not iterated
+                seq = strip_at(it)
+                while isinstance(seq, App) and seq.fn in ('enumerate', 'reversed', 'iter') and seq.args:
+                    seq = strip_at(seq.args[0])
+                if isinstance(seq, (Fresh, Sym, Attr)):
+                    try:
+                        keep = []
+                        for c in nxt_input:
+                            if self.decide(c, self.formula(seq, c)) is not False:
+                                keep.append(c)
+                        nxt_input = keep
+                    except AnalysisError:
+                        raise
+                    except Exception:
+                        pass
             for c in nxt_input:
                 c.loops = c.loops + (lid,)
                 c.approx += 1
@@ -2399,6 +2450,15 @@ class _Ctx:
         return Const(v)
 
     def ex_JoinedStr(self, e, st):
+        # the text is opaque, but the calls made to build it happen (and may raise): f"... {Tags.get_tag_name(tag)}"
+        for v in e.values:
+            if isinstance(v, ast.FormattedValue) and any(isinstance(n, ast.Call) for n in ast.walk(v.value)):
+                try:
+                    self.ev(v.value, st)
+                except AnalysisError:
+                    raise
+                except Exception:
+                    pass
         return Opaque('fstring@%d' % e.lineno)
 
     def is_sentinel(self, t: Term) -> bool:
@@ -2456,6 +2516,13 @@ class _Ctx:
                             return self.ev(v, State())
                         finally:
                             self._alias_busy = False
+                if self._named_number(v, m) and self._module_bound_once(m, name) and not getattr(self, '_alias_busy', False):
+                    # NAME = float('inf') / -float('inf') / maxsize / math.inf at module level (bound once): the number it names
+                    self._alias_busy = True
+                    try:
+                        return self.ev(v, State())
+                    finally:
+                        self._alias_busy = False
                 if isinstance(v, ast.Call) and isinstance(v.func, ast.Name) and v.func.id in ('frozenset', 'set', 'tuple') and len(v.args) == 1 \
                         and not v.keywords and isinstance(v.args[0], (ast.Set, ast.Tuple, ast.List)):
                     v = ast.Tuple(elts=list(v.args[0].elts), ctx=ast.Load())        # a constant collection: its elements
@@ -2558,6 +2625,29 @@ class _Ctx:
                         return r
                     return App('prop:' + m.qualname, (base,))
         return path
+
+    def _named_number(self, v, m) -> bool:
+        """`float('inf')`, `float('-inf')`, a sign in front of one, or a name of an external numeric constant (`maxsize`, `math.inf`)."""
+        if m is not self.fn.module:
+            return False
+        if isinstance(v, ast.UnaryOp) and isinstance(v.op, (ast.USub, ast.UAdd)):
+            return self._named_number(v.operand, m)
+        if isinstance(v, ast.Call) and isinstance(v.func, ast.Name) and v.func.id == 'float' and len(v.args) == 1 and not v.keywords \
+                and isinstance(v.args[0], ast.Constant) and isinstance(v.args[0].value, str) and self.prog.resolve_name('float', m) is None:
+            return True
+        if isinstance(v, (ast.Name, ast.Attribute)):
+            r = self.prog.resolve_name(v.id, m) if isinstance(v, ast.Name) else self.prog.resolve_expr_static(v, m)
+            return r is not None and r[0] == 'ext' and r[1] in ('sys.maxsize', 'math.inf')
+        return False
+
+    def _module_bound_once(self, m, name) -> bool:
+        n = 0
+        for node in ast.walk(m.tree):
+            if isinstance(node, ast.Name) and node.id == name and isinstance(node.ctx, (ast.Store, ast.Del)):
+                n += 1
+            elif isinstance(node, (ast.Global, ast.Nonlocal)) and name in node.names:
+                return False
+        return n == 1
 
     def _is_static_chain(self, e, st) -> bool:
         cur = e
@@ -2921,7 +3011,9 @@ class _Ctx:
             return None
         if callee.qualname in self.inline_stack:
             return None
-        expr = _is_single_return(callee)
+        # guard clauses are folded into one conditional expression for helpers the documented API does not have (a predicate that
+        # was factored out of a test); a documented function with several exits keeps its paths
+        expr = _is_single_return(callee, chains=self.w.is_new_function(callee))
         body = None
         if expr is None:
             body = _straight_line(callee)
@@ -3363,6 +3455,20 @@ class _Ctx:
                 recv = st.env.get(sn, Sym(sn))
             else:
                 recv = self.ev(f.value, st)
+                if tgt.kind == 'pkg' and tgt.via == 'method' and tgt.funcs and tgt.funcs[0].cls is not None and not tgt.funcs[0].is_static:
+                    # `self._poll()` where `_poll` is a FIELD holding a bound method: the receiver is the object the method was taken
+                    # from when the field was set, not the object the field is read from
+                    try:
+                        bt1 = self.term_type(recv)
+                    except Exception:
+                        bt1 = None
+                    if bt1 and bt1[0] == 'inst' and not self.prog.lookup_method(bt1[1], f.attr) and self.ti.field_owner(bt1[1], f.attr) is not None:
+                        recv = Attr(Attr(recv, f.attr), '__self__')
+        if recv is None and isinstance(f, ast.Name) and f.id in st.env and tgt.kind == 'pkg' and tgt.via == 'method' and tgt.funcs \
+                and tgt.funcs[0].cls is not None and not tgt.funcs[0].is_static and not tgt.funcs[0].is_classmethod \
+                and isinstance(st.env[f.id], (Attr, Sub, App)):
+            # a local that holds a bound method read from somewhere else (a field, a table): its receiver is whatever it was bound to
+            recv = Attr(st.env[f.id], '__self__')
         if tgt.kind == 'pkg' and len(tgt.funcs) == 1 and kw and '**' not in kw and tgt.via != 'ctor' and \
                 not any(isinstance(a, App) and a.fn == '*' for a in args):
             # f(name=a, other=b) for leading positional parameters is f(a, b): rules read positions
